@@ -369,6 +369,7 @@ func c11(c *core.Ctx) {
 			"(*transaction.CandidateVoteEnv).unRegisterCandidate": "unregistering: the count is zeroed together with the isCandidate flag (C11.3)",
 			"(*chain.Genesis).initCandidateListInfo":              "genesis deputies start at zero",
 		}
+		expandInlinedNames(c, absolute)
 		nRel, nAbs := 0, 0
 		absSeen := map[string]int{}
 		for _, s := range c.CallSites(acc("SetVotes")) {
